@@ -353,7 +353,9 @@ func (ex *Exec) runVC() {
 		}
 	}
 	ex.postconditions()
-	ex.frameCheck()
+	if !ex.c.Trusted {
+		ex.frameCheck()
+	}
 }
 
 // frameIrrelevant: synchronisation primitives and statistics counters; no contract talks about them.
@@ -733,7 +735,11 @@ func (ex *Exec) postconditions() {
 		g.warnf("%s: no reachable return", g.curFunc)
 	}
 	type piece struct{ pc, goal string }
-	for _, e := range con.Ens {
+	ens := con.Ens
+	if con.Trusted {
+		ens = nil // `trusted` + `check-calls`: ensures/modifies stay assumptions; only the call-site clauses are checked on the body
+	}
+	for _, e := range ens {
 		var parts []string
 		for _, r := range ex.rets {
 			env := ex.funcEnv(r.st)
